@@ -5647,6 +5647,12 @@ oid_parsing_done:
             break;
         case ATTRIB_ORG_UNIT:
             orgUnit = psMalloc(pool, sizeof(x509OrgUnit_t));
+            if (orgUnit == NULL)
+            {
+                psError("Memory allocation error in getDNAttributes\n");
+                psFree(stringOut, pool);
+                return PS_MEM_FAIL;
+            }
             orgUnit->name = stringOut;
             orgUnit->type = (short) stringType;
             orgUnit->len = llen;
@@ -5692,6 +5698,12 @@ oid_parsing_done:
             break;
         case ATTRIB_DOMAIN_COMPONENT:
             domainComponent = psMalloc(pool, sizeof(x509DomainComponent_t));
+            if (domainComponent == NULL)
+            {
+                psError("Memory allocation error in getDNAttributes\n");
+                psFree(stringOut, pool);
+                return PS_MEM_FAIL;
+            }
             domainComponent->name = stringOut;
             domainComponent->type = (short) stringType;
             domainComponent->len = llen;
